@@ -192,6 +192,8 @@ OkInsert(T, c, t, s, k, a, d, out) ==
         /\ (needSlot /\ full /\ sur = 0) => out.sz = c.cap
   /\ ("C02" \in T) => SizeRule(c, L2, sur + (IF doa THEN 1 ELSE 0), Cardinality(unr2), out.sz)
   /\ ("C17" \in T) => ((c.kind \in UtKinds /\ ~live /\ a = 2) => ~out.ret)
+  \* ut_map / ut_set purge at the start of the call: nothing that expired before it is still counted
+  /\ ("C17" \in T) => (c.kind \in UtKinds => out.sz = L2 + (IF doa THEN 1 ELSE 0))
   /\ ("C10" \in T) =>
         (((c.kind = "lru" \/ (c.kind \in TtlCaches /\ sur = 0)) /\ g # {} /\ lr # <<>>)
             => g = {lr[Len(lr)]})
@@ -239,6 +241,7 @@ OkErase(T, c, t, s, k, out) ==
   /\ ("C03" \in T) => /\ g \subseteq {k} \cap Live(s)
                       /\ ~out.ret => g = {}
   /\ ("C17" \in T) => ((c.kind \in UtKinds /\ ~live) => ~out.ret)
+  /\ ("C17" \in T) => (c.kind \in UtKinds => out.sz = L2)
   /\ ("C02" \in T) => SizeRule(c, L2, Surplus(s) - (IF out.ret /\ unrk THEN 1 ELSE 0),
                                Cardinality(IF out.ret THEN s.unr \ {k} ELSE s.unr), out.sz)
 
@@ -273,6 +276,7 @@ OkFind(T, c, t, s, k, peek, out) ==
   /\ ("C03" \in T) => (live => hit)
   /\ ("C05" \in T) => ((c.kind \in TtlKinds /\ live) => hit)
   /\ ("C17" \in T) => ((c.kind \in UtKinds /\ hit) => live)    \* ut_map / ut_set purge before they look up
+  /\ ("C17" \in T) => (c.kind \in UtKinds => out.sz = NLive(s))
   /\ ("C11" \in T) => ((c.kind \in CntKinds /\ out.wc /\ hit /\ live) =>
                            out.rc = s.cnt[k] + (IF peek THEN 0 ELSE 1))
   /\ ("C02" \in T) => SizeRule(c, NLive(s), Surplus(s), Cardinality(s.unr), out.sz)
